@@ -165,13 +165,54 @@ func (rn *runner) runGroupCase(c *Case) {
 			r := gi.routers[op.Inst]
 			res, _ := guard(func() { r.Use(gi.e.mws(op.Mws)...) })
 			rn.emit(obj("ev", js("use"), "inst", js(op.Inst), "mws", jarr(op.Mws), "res", js(res)))
+		case "gobserve": // Group.Routes(), Group.Routers() (order), Group.Router(name)
+			rn.gobserve(gi)
 		case "gserve", "rserve":
 			rn.gserve(gi, op)
 		default:
 			panic("unknown group op " + op.Op)
 		}
 	}
+	rn.gobserve(gi)
 	for i := range c.Reqs {
 		rn.gserve(gi, &c.Reqs[i])
 	}
+}
+
+func (rn *runner) gobserve(gi *ginst) {
+	var names []string
+	routes := map[string]map[string][]string{}
+	found := map[string]string{}
+	res, _ := guard(func() {
+		for _, r := range gi.g.Routers() {
+			names = append(names, r.Name())
+		}
+		routes = gi.g.Routes()
+		for _, n := range []string{"r1", "r2", "r3", "r4", "zz"} {
+			if r := gi.g.Router(n); r != nil {
+				found[n] = r.Name()
+			}
+		}
+	})
+	if names == nil {
+		names = []string{}
+	}
+	rs := make([]string, 0, len(routes))
+	for _, n := range names {
+		if m, ok := routes[n]; ok {
+			rs = append(rs, js(n)+":"+jmaparr(m))
+		}
+	}
+	rn.emit(obj("ev", js("gobserve"), "res", js(res), "order", jarr(names), "nroutes", jint(len(routes)), "routes", "{"+joinStr(rs)+"}", "found", jmap(found)))
+}
+
+func joinStr(xs []string) string {
+	out := ""
+	for i, x := range xs {
+		if i > 0 {
+			out += ","
+		}
+		out += x
+	}
+	return out
 }
